@@ -26,6 +26,7 @@ from pvc.core import Sym
 
 MODULES = ['dassh.power', 'dassh.reactor', 'dassh.assembly']
 PROPERTY = 'C03'
+LEAN_LEMMAS = ['sweep_balance']        # /verif/lean/Ghost.lean, checked in the thorough tier
 FUNCTIONS = ['dassh.power:_integrate', 'dassh.power:AssemblyPower.presweep_setup', 'dassh.power:AssemblyPower.get_power_sweep',
              'dassh.power:AssemblyPower._calculate_pdist', 'dassh.power:AssemblyPower.__init__',
              'dassh.reactor:Reactor._setup_scale_asm_power', 'dassh.assembly:Assembly.calculate (power tally)', 'dassh.assembly:Assembly._identify_active_region']
